@@ -256,3 +256,74 @@ Proof.
       rewrite ?andb_false_r, ?orb_false_r; reflexivity. }
   rewrite CF. reflexivity.
 Qed.
+
+(* ------------------------------------------------------------------ *)
+(* 3. END TO END over the tables                                       *)
+(* ------------------------------------------------------------------ *)
+Lemma trunc_shape_tables : forall ned f, In f (date_forms_of ned) -> f_type f = "truncated" ->
+  trunc_date_shape (f_parse f) = true.
+Proof.
+  intros ned f I T. destruct tables_trunc_shapes as (S & _). rewrite forallb_forall in S.
+  assert (J : In f (DATE_FORMS_0 ++ DATE_FORMS_2 ++ DATE_FORMS_3)%list).
+  { unfold date_forms_of in I. destruct (ned =? 0)%Z; [apply in_or_app; left; exact I|].
+    apply in_or_app; right. apply in_or_app. destruct (ned =? 3)%Z; [right|left]; exact I. }
+  specialize (S f J). unfold not_trunc in S. rewrite T in S. exact S.
+Qed.
+Lemma time_any_tables : forall f, In f TIME_FORMS -> time_any_shape (f_parse f) = true.
+Proof. intros f I. destruct tables_trunc_shapes as (_ & S). rewrite forallb_forall in S. apply S. exact I. Qed.
+Lemma trunc_no_expanded : forall ts, trunc_date_shape ts = true -> binds "expanded_year" ts = false.
+Proof.
+  intros ts S. unfold trunc_date_shape in S. cbv zeta in S.
+  repeat match type of S with _ && _ = true => let X := fresh "S" in apply andb_true_iff in S; destruct S as [S X] end.
+  repeat match goal with X : negb _ = true |- _ => apply negb_true_iff in X end. assumption.
+Qed.
+Lemma trunc_num_keys : forall ts, trunc_date_shape ts = true -> num_keys_ok DATE_KEYS ts = true.
+Proof.
+  intros ts S. unfold trunc_date_shape in S. cbv zeta in S.
+  repeat match type of S with _ && _ = true => let X := fresh "S" in apply andb_true_iff in S; destruct S as [S X] end.
+  assumption.
+Qed.
+
+Theorem decode_trunc : forall md cfg fd gd ft zo ad atm az asp,
+  In (c_ned cfg) [0; 2; 3]%Z ->
+  let dfs := date_forms_of (c_ned cfg) in
+  In fd (date_search dfs cfg ["reduced"]) -> f_type fd = "truncated" ->
+  hit (date_search dfs cfg ["reduced"]) fd = Some gd ->
+  let bf := bad_formats_of (f_format gd) (f_type gd) in
+  In ft (time_search TIME_FORMS cfg bf (trunc_types fd)) ->
+  In zo (zone_choices cfg bf ft) ->
+  wf_assign (f_parse fd) ad = true -> wf_assign (f_parse ft) atm = true -> zo_wf zo az = true ->
+  let p := t_point cfg (f_parse fd) (f_parse ft) zo ad atm az
+                   (if asp then f_expr fd ++ "T" ++ f_expr ft ++ zo_expr zo else "") in
+  parse_text md cfg (render_toks (f_parse fd) ad ++ "T" ++ render_toks (f_parse ft) atm ++ zo_text zo az) asp =
+  if t_zone_ok (t_zone cfg zo az) && check_bounds md p then POk p else PErr EBadInput.
+Proof.
+  intros md cfg fd gd ft zo ad atm az asp N dfs ID TY H bf IT IZ Wd Wt Wz p.
+  assert (Sd : trunc_date_shape (f_parse fd) = true).
+  { apply (trunc_shape_tables (c_ned cfg)); [apply (date_search_In _ _ _ _ ID)|exact TY]. }
+  assert (St : time_any_shape (f_parse ft) = true) by (apply time_any_tables; apply (time_search_In _ _ _ _ _ IT)).
+  rewrite (decode_tables md cfg fd gd ft zo ad atm az asp N ID H); try assumption.
+  2:{ intros _. apply trunc_no_expanded. exact Sd. }
+  destruct (zone_num_opt cfg zo az (zone_shape_choices _ _ _ _ IZ)) as (zn & ZN & ZA).
+  rewrite ZN. cbn [pbind]. rewrite point_num_trunc by auto. cbv zeta. rewrite ZA. reflexivity.
+Qed.
+
+Theorem decode_trunc_date : forall md cfg fd ad asp,
+  In (c_ned cfg) [0; 2; 3]%Z ->
+  let dfs := date_forms_of (c_ned cfg) in
+  In fd (date_search dfs cfg []) -> f_type fd = "truncated" ->
+  mem (f_expr fd) (date_exceptions (c_ned cfg) (c_trunc cfg) []) = false ->
+  wf_assign (f_parse fd) ad = true ->
+  let p := t_point cfg (f_parse fd) [] None ad [] [] (if asp then f_expr fd else "") in
+  parse_text md cfg (render_toks (f_parse fd) ad) asp =
+  if t_zone_ok (t_zone cfg None []) && check_bounds md p then POk p else PErr EBadInput.
+Proof.
+  intros md cfg fd ad asp N dfs I TY E W p.
+  assert (Sd : trunc_date_shape (f_parse fd) = true).
+  { apply (trunc_shape_tables (c_ned cfg)); [apply (date_search_In _ _ _ _ I)|exact TY]. }
+  rewrite (parse_text_date_only md cfg fd ad asp N I E (trunc_num_keys _ Sd) W).
+  destruct (zone_num_opt cfg None [] eq_refl) as (zn & ZN & ZA). cbn [zo_bind] in ZN.
+  rewrite ZN. cbn [pbind].
+  change (@nil (string * string)) with (bindings [] []).
+  rewrite point_num_trunc by auto. cbv zeta. rewrite ZA. reflexivity.
+Qed.
